@@ -585,6 +585,7 @@ def c05(rng):
 
 # ---------------------------------------------------------------- C17: adapter signatures
 L_ORDER = 2**252 + 27742317777372353535851937790883648493
+_C17_SWEPT = False
 
 
 def c17(rng):
@@ -615,6 +616,26 @@ def c17(rng):
     facts.append(('altered T fails', not chk(sa, R, m, PUBS[b], X)))
     facts.append(('altered message fails', not chk(sa, R, m + b'!', Tp, X)))
     facts.append(('altered key fails', not chk(sa, R, m, Tp, PUBS[b])))
+    # "every single-bit corruption of each of the five check inputs": all bits once per worker process, a sample afterwards
+    # (the top bit of each 32-byte input always: scalar and point codecs treat it specially)
+    global _C17_SWEPT
+    full = not _C17_SWEPT
+    _C17_SWEPT = True
+    inputs = [sa, R, m, Tp, X]
+    for pos, nm in enumerate(('sa', 'R', 'message', 'T', 'key')):
+        v = inputs[pos]
+        nbits = len(v) * 8
+        if nbits == 0:
+            continue
+        bits = range(nbits) if full and nbits <= 512 else sorted(set([nbits - 1, (nbits - 1) ^ 7, 0, 7] + [rng.randrange(nbits) for _ in range(12)]))
+        accepted = []
+        for bit in bits:
+            w = bytearray(v); w[bit // 8] ^= 1 << (bit % 8)
+            args = list(inputs); args[pos] = bytes(w)
+            if chk(*args):
+                accepted.append(bit)
+        facts.append(('single-bit corruption of %s fails (%d bits tried%s)' % (nm, len(bits), ', accepted with bit(s) %s of %s flipped (bit k = byte k//8, mask 1<<k%%8): OP_CHECK_ADAPTER_SIG on sa=%s R=%s m=%s T=%s X=%s'
+                      % (accepted, nm, sa.hex(), R.hex(), m.hex(), Tp.hex(), X.hex()) if accepted else ''), not accepted))
     _, st, _ = F.run_script(gpush(sa) + gpush(R) + gpush(tw) + bytes([F.opcodes_inverse['OP_DECRYPT_ADAPTER_SIG'][0]]))
     s, RT = st.get(), st.get()
 
